@@ -137,6 +137,20 @@ class Domain:
             return chr(c).isspace()
         return self._memo_get('sp', c, lambda: _in_ranges(c, self.space_ranges))
 
+    def is_alpha(self, c):
+        if isinstance(c, int):
+            return chr(c).isalpha()
+        def build():
+            if self.full:
+                rs = self.__dict__.get('_alpha_ranges')
+                if rs is None:
+                    rs = self.__dict__['_alpha_ranges'] = _ranges(
+                        [x for x in range(0x110000) if chr(x).isalpha()])
+            else:
+                rs = _ranges([x for x in self.members if chr(x).isalpha()])
+            return _in_ranges(c, rs)
+        return self._memo_get('al', c, build)
+
     def is_int_space(self, c):
         if isinstance(c, int):
             return c in _INT_SPACE
@@ -417,6 +431,29 @@ class SymStr:
 
     def isdigit(self):
         raise Unsupported('str.isdigit')
+
+    def isascii(self):
+        return mk(zand([(z3.BoolVal(c < 128) if isinstance(c, int) else c < 128) for c in self._self().cs]))
+
+    def isalpha(self):
+        if not self.cs:
+            return False
+        d = self._dom()
+        return mk(zand([tobool(d.is_alpha(c)) for c in self._self().cs]))
+
+    def partition(self, sep):
+        i = self.find(sep)
+        if i < 0:
+            return (simp(self.cs), '', '')
+        n = len(chars_of(sep))
+        return (simp(self.cs[:i]), simp(self.cs[i:i + n]), simp(self.cs[i + n:]))
+
+    def rpartition(self, sep):
+        i = self.rfind(sep)
+        if i < 0:
+            return ('', '', simp(self.cs))
+        n = len(chars_of(sep))
+        return (simp(self.cs[:i]), simp(self.cs[i:i + n]), simp(self.cs[i + n:]))
 
     # -- shape-changing operations: decide position by position
     def _strip_pred(self, chars):
